@@ -21,7 +21,7 @@ func init() {
 // mgEval: one case through the real merger under every permutation (≤ 4 services: all), each
 // compared with the Lean model. Returns the outcomes (nil if an input is not a valid schema).
 func mgEval(ctx *Ctx, prop string, idx int, c mgCase) []mgOutcome {
-	perms := casePerms(c, hx.NewRand(uint64(idx)*7919+ctx.Seed))
+	perms := mgCasePerms(c, hx.NewRand(uint64(idx)*7919+ctx.Seed))
 	outs := make([]mgOutcome, 0, len(perms))
 	for _, p := range perms {
 		o := runMerger(c, p)
@@ -73,7 +73,7 @@ func runMergerFamily(ctx *Ctx, prop string) error {
 		case k%20 == 5:
 			inject = extraKinds[(k/20)%len(extraKinds)]
 		}
-		run(genCase(r, inject))
+		run(mgGenCase(r, inject))
 	}
 	return nil
 }
@@ -105,7 +105,7 @@ func sharesType(c mgCase, items [][]string) bool {
 }
 
 func mgCheck(ctx *Ctx, prop string, idx int, c mgCase) {
-	items, schemas, err := inputItems(c)
+	items, schemas, err := mgInputItems(c)
 	if err != nil {
 		ctx.Rep.Count("generator produced an invalid service schema (skipped)")
 		ctx.Rep.Note("invalid generated input: " + err.Error())
@@ -116,7 +116,7 @@ func mgCheck(ctx *Ctx, prop string, idx int, c mgCase) {
 		return
 	}
 	ctx.Rep.Case(c.key(), len(c.SDL) >= 2 && sharesType(c, items))
-	countCase(ctx, c, outs)
+	mgCountCase(ctx, c, outs)
 	ctx.Rep.Sample(map[string]interface{}{"sdl": c.SDL, "mode": c.Mode, "inject": c.Inject, "outcome": stripOutcome(outs[0])})
 	var fails []hx.Failure
 	switch prop {
@@ -136,7 +136,7 @@ func mgCheck(ctx *Ctx, prop string, idx int, c mgCase) {
 // ---------------------------------------------------------------------------------------------
 // oracle, written from the statement
 
-func itemSet(xs []string) map[string]bool {
+func mgItemSet(xs []string) map[string]bool {
 	m := map[string]bool{}
 	for _, x := range xs {
 		m[x] = true
@@ -144,7 +144,7 @@ func itemSet(xs []string) map[string]bool {
 	return m
 }
 
-func prefixOf(it string) string { return it[:strings.Index(it, "|")] }
+func mgPrefixOf(it string) string { return it[:strings.Index(it, "|")] }
 
 // nodeDefsDiffer: two services declare `Node` with different field sets (input class of C03-node-def-differs)
 func nodeDefsDiffer(items [][]string) bool {
@@ -210,7 +210,7 @@ func directiveConflicts(items [][]string) map[string]bool {
 	return out
 }
 
-func hasRepeatable(items [][]string) bool {
+func mgHasRepeatable(items [][]string) bool {
 	for _, it := range items {
 		for _, x := range it {
 			if strings.HasPrefix(x, "D|") && strings.HasSuffix(x, "|true") {
@@ -221,7 +221,7 @@ func hasRepeatable(items [][]string) bool {
 	return false
 }
 
-func allHavePrefix(xs []string, pfx ...string) bool {
+func mgAllHavePrefix(xs []string, pfx ...string) bool {
 	for _, x := range xs {
 		ok := false
 		for _, p := range pfx {
@@ -235,10 +235,10 @@ func allHavePrefix(xs []string, pfx ...string) bool {
 }
 
 func c03Oracle(c mgCase, items [][]string, schemas []*ast.Schema, outs []mgOutcome) []hx.Failure {
-	var fs failSet
+	var fs mgFailSet
 	union := map[string]bool{}
 	for _, it := range items {
-		for _, x := range coreItems(it) {
+		for _, x := range mgCoreItems(it) {
 			union[x] = true
 		}
 	}
@@ -250,11 +250,11 @@ func c03Oracle(c mgCase, items [][]string, schemas []*ast.Schema, outs []mgOutco
 		if o.Outcome != "ok" {
 			continue // the statement speaks about sets that merge successfully
 		}
-		res := itemSet(coreItems(o.Items))
+		res := mgItemSet(mgCoreItems(o.Items))
 		// superset
 		var missing []string
 		for _, i := range o.Perm {
-			for _, x := range coreItems(items[i]) {
+			for _, x := range mgCoreItems(items[i]) {
 				if c.Mode == "sanitize" && (strings.HasPrefix(x, "F|Query|node|") || strings.HasPrefix(x, "A|Query|node|")) {
 					continue // the node-hiding merger removes the relay entry point by design
 				}
@@ -263,7 +263,7 @@ func c03Oracle(c mgCase, items [][]string, schemas []*ast.Schema, outs []mgOutco
 				}
 			}
 		}
-		missing = dedupSorted(hx.SortedStrings(missing))
+		missing = mgDedupSorted(hx.SortedStrings(missing))
 		var invented []string
 		for x := range res {
 			if !union[x] {
@@ -347,7 +347,7 @@ func c03Oracle(c mgCase, items [][]string, schemas []*ast.Schema, outs []mgOutco
 	return fs.list
 }
 
-func allRepeatable(xs []string) bool {
+func mgAllRepeatable(xs []string) bool {
 	for _, x := range xs {
 		if !strings.HasSuffix(x, "|true") {
 			return false
